@@ -205,6 +205,21 @@ func observe(c ctx, k *hdkeychain.ExtendedKey, n *hdref.Node, version []byte, wh
 		rep.Violate("C04:address:conforms", "Address() text differs from the P2PKH address of the reference identifier",
 			c.replay(map[string]interface{}{"node": what, "impl": addr.EncodeAddress()}))
 	}
+	// the address is a function of the key and of the network PASSED to Address: ask the same object for two more
+	// networks (and the first one again) -- nothing may be left over from the earlier calls (review round 2)
+	for d := 1; d <= 3; d++ {
+		on := nets[(c.net+d*d)%len(nets)] // +1, +4, +9 = +3 (mod 6), then the original net again below
+		if d == 3 {
+			on = nets[c.net]
+		}
+		a2, err2 := k.Address(on)
+		want2, err3 := bchutil.NewAddressPubKeyHash(id, on)
+		if err2 != nil || err3 != nil || a2.EncodeAddress() != want2.EncodeAddress() || !a2.IsForNet(on) || !bytes.Equal(a2.Hash160()[:], id) {
+			rep.Violate("C04:address:conforms", "Address(net) called again on the same key object with another network is not the P2PKH address of HASH160(serP(K)) on THAT network",
+				c.replay(map[string]interface{}{"node": what, "first_call_net": nets[c.net].Name, "this_call_net": on.Name, "err": fmt.Sprint(err2), "impl": fmt.Sprint(a2), "want": fmt.Sprint(want2)}))
+			break
+		}
+	}
 	pk, err := k.ECPubKey()
 	if err != nil || pk.X.Cmp(n.P.X) != 0 || pk.Y.Cmp(n.P.Y) != 0 {
 		rep.Violate("C04:ecpub", "ECPubKey() is not the reference public point", c.replay(map[string]interface{}{"node": what, "err": fmt.Sprint(err)}))
@@ -458,7 +473,6 @@ func nodeCases(k *hdkeychain.ExtendedKey, shaOracle bool, what string) {
 	}
 }
 
-
 // siblings derives several children from ONE key object in mixed hardened / non-hardened order (and calls
 // String / Address / Neuter in between), checking each against the reference: the result of Child must not
 // depend on the history of the object.
@@ -527,6 +541,174 @@ func siblings(seed []byte, net int, prefix []uint32, idx []uint32, corr bool) {
 			k.Address(nets[net])
 		case 2:
 			k.Neuter()
+		}
+	}
+}
+
+// pubChain follows a non-hardened path with PUBLIC derivation only, starting from the neutered key at
+// seed/prefix: every step is a Child of the previous public key (never re-neutered from a private key),
+// compared with CKDpub of the reference and with the neutered private derivation (review round 2).
+func pubChain(seed []byte, net int, prefix, path []uint32, corr bool) {
+	c := ctx{seed: seed, net: net, path: prefix}
+	k, err := derivePriv(seed, net, prefix)
+	n := refDerive(seed, prefix)
+	if err != nil || n == nil {
+		return
+	}
+	vpub := nets[net].HDPublicKeyID[:]
+	pk, err := k.Neuter()
+	if err != nil {
+		rep.Violate("C04:neuter:conforms", "Neuter failed on a key of a registered network", c.replay(map[string]interface{}{"err": fmt.Sprint(err)}))
+		return
+	}
+	pn := hdref.Neuter(n)
+	priv := n
+	full := append([]uint32{}, prefix...)
+	for step, i := range path {
+		i &^= H
+		full = append(full, i)
+		c.path = full
+		parF := pk.VerifFields()
+		var ch *hdkeychain.ExtendedKey
+		if p, msg := vh.Catch(func() { ch, err = pk.Child(i) }); p {
+			rep.Violate("C04:panic", "public Child panicked", c.replay(map[string]interface{}{"panic": msg, "public_chain_from": pathStr(prefix)}))
+			return
+		}
+		rep.Count("child_pub_chain", "cc"+vh.Hex(parF.Key)+vh.Hex(parF.ChainCode)+fmt.Sprint(i), true)
+		if int(parF.Depth) == 255 {
+			if err != hdkeychain.ErrDeriveBeyondMaxDepth {
+				rep.Violate("C04:guard:depth", "public Child at depth 255 did not return ErrDeriveBeyondMaxDepth", c.replay(map[string]interface{}{"err": fmt.Sprint(err)}))
+			}
+			return
+		}
+		qo := hdref.NewOracle()
+		qn, qst, qgap := hdref.CKDpub(qo, pn, i)
+		var cst hdref.Status
+		priv, cst, _ = hdref.CKDpriv(nil, priv, i)
+		if qgap.ILZero || qgap.ChildZero {
+			gapsSeen++
+			return
+		}
+		if (qst == hdref.Valid) != (err == nil) {
+			rep.Violate("C04:child:pub_conforms", "public Child validity differs from CKDpub (chain of public derivations)",
+				c.replay(map[string]interface{}{"public_chain_from": pathStr(prefix), "err": fmt.Sprint(err)}))
+			return
+		}
+		if err != nil {
+			return
+		}
+		if d := conforms(ch, qn, vpub); d != "" {
+			rep.Violate("C04:child:pub_conforms", "public Child differs from CKDpub (chain of public derivations) in: "+d,
+				c.replay(map[string]interface{}{"public_chain_from": pathStr(prefix), "parent": descKey(parF), "index": i, "impl": descKey(ch.VerifFields())}))
+			return
+		}
+		if cst == hdref.Valid {
+			if d := conforms(ch, hdref.Neuter(priv), vpub); d != "" {
+				rep.Violate("C04:neuter:commutes", "a chain of public derivations differs from the neutered private derivation in: "+d,
+					c.replay(map[string]interface{}{"public_chain_from": pathStr(prefix)}))
+			}
+		}
+		if qn.P.X.BitLen() <= 248 {
+			rep.Histogram["child_pubkey_x_leading_zero_byte"]++
+		}
+		observe(c, ch, qn, vpub, "public chain")
+		if corr && (step%2 == 0 || qn.P.X.BitLen() <= 248) {
+			childOracle(qo, parF, i)
+			cases.Add(fmt.Sprintf("Child %s %s %d %s", qo.Coq(), coqKey(parF), i, coqRes(ch, err)),
+				map[string]interface{}{"op": "Child(public chain)", "seed": vh.Hex(seed), "from": pathStr(prefix), "path": pathStr(full), "index": i})
+			if qn.P.X.BitLen() <= 248 {
+				nodeCases(ch, true, pathStr(full)+" public chain, X with a leading zero byte")
+			}
+		}
+		pk, pn = ch, qn
+	}
+}
+
+// findLeadingZeroPub scans non-hardened indices for a child whose PUBLIC key has an X coordinate with a leading
+// zero byte (SerializeCompressed must left-pad it), with the reference arithmetic.
+func findLeadingZeroPub(par *hdref.Node, start uint32, maxTries int) (uint32, bool) {
+	pp := hdref.Neuter(par)
+	for t := 0; t < maxTries; t++ {
+		i := (start + uint32(t)) &^ H
+		n, st, gap := hdref.CKDpub(nil, pp, i)
+		if st == hdref.Valid && !gap.ILZero && !gap.ChildZero && n.P.X.BitLen() <= 248 {
+			return i, true
+		}
+	}
+	return 0, false
+}
+
+// setNetThenChild: SetNet on a key, then derivation: children, neutered forms and strings carry the new network's
+// version bytes and are otherwise the BIP32 nodes (SetNet "associates the key, and any child keys yet to be derived").
+func setNetThenChild(r *vh.RNG, a, b int, corr bool) {
+	seed := r.Bytes(16 + r.Intn(49))
+	prefix := []uint32{randIndex(r)}
+	c := ctx{seed: seed, net: a, path: prefix}
+	k, err := derivePriv(seed, a, prefix)
+	n := refDerive(seed, prefix)
+	if err != nil || n == nil {
+		return
+	}
+	k.SetNet(nets[b])
+	vpriv, vpub := nets[b].HDPrivateKeyID[:], nets[b].HDPublicKeyID[:]
+	rep.Count("setnet_child", fmt.Sprint("sn", vh.Hex(seed), a, b), a != b)
+	what := map[string]interface{}{"then": "SetNet(" + nets[b].Name + ") on the key at the path, then Child / Neuter / String"}
+	if d := conforms(k, n, vpriv); d != "" || k.String() != hdref.String(nil, n, vpriv) || !k.IsForNet(nets[b]) || (a != b && nets[a].HDPrivateKeyID != nets[b].HDPrivateKeyID && k.IsForNet(nets[a])) {
+		rep.Violate("C04:string:conforms", "after SetNet the key is not the same BIP32 node under the new network's version: "+d, c.replay(what))
+		return
+	}
+	for _, i := range []uint32{uint32(r.Intn(1000)), H + uint32(r.Intn(1000))} {
+		parF := k.VerifFields()
+		ch, err := k.Child(i)
+		co := hdref.NewOracle()
+		cn, st, gap := hdref.CKDpriv(co, n, i)
+		if gap.ILZero || gap.ChildZero || st != hdref.Valid {
+			continue
+		}
+		c2 := ctx{seed: seed, net: b, path: append(append([]uint32{}, prefix...), i)}
+		if err != nil {
+			rep.Violate("C04:child:priv_conforms", "Child refused a valid index after SetNet", c2.replay(what))
+			continue
+		}
+		if d := conforms(ch, cn, vpriv); d != "" {
+			rep.Violate("C04:child:priv_conforms", "private Child after SetNet differs from CKDpriv / the new network's version in: "+d, c2.replay(what))
+			continue
+		}
+		observe(c2, ch, cn, vpriv, "priv after SetNet")
+		nc, nerr := ch.Neuter()
+		if nerr != nil {
+			rep.Violate("C04:neuter:conforms", "Neuter failed after SetNet to a registered network", c2.replay(what))
+			continue
+		}
+		if d := conforms(nc, hdref.Neuter(cn), vpub); d != "" {
+			rep.Violate("C04:neuter:conforms", "Neuter after SetNet differs from N((k,c)) / the new network's public version in: "+d, c2.replay(what))
+		}
+		observe(c2, nc, hdref.Neuter(cn), vpub, "neutered after SetNet")
+		if corr && i < H {
+			childOracle(co, parF, i)
+			cases.Add(fmt.Sprintf("Child %s %s %d %s", co.Coq(), coqKey(parF), i, coqRes(ch, err)),
+				map[string]interface{}{"op": "Child after SetNet", "from": nets[a].Name, "to": nets[b].Name, "index": i})
+		}
+	}
+	// the public side: SetNet on the neutered key
+	pk, _ := derivePriv(seed, a, prefix)
+	nk, _ := pk.Neuter()
+	if nk == nil {
+		return
+	}
+	nk.SetNet(nets[b])
+	if d := conforms(nk, hdref.Neuter(n), vpub); d != "" {
+		rep.Violate("C04:neuter:conforms", "after SetNet a public key is not the same node under the new network's public version: "+d, c.replay(what))
+		return
+	}
+	i := uint32(r.Intn(1000))
+	pc, perr := nk.Child(i)
+	qn, qst, qgap := hdref.CKDpub(nil, hdref.Neuter(n), i)
+	if !(qgap.ILZero || qgap.ChildZero) && qst == hdref.Valid {
+		if perr != nil {
+			rep.Violate("C04:child:pub_conforms", "public Child refused a valid index after SetNet", c.replay(what))
+		} else if d := conforms(pc, qn, vpub); d != "" {
+			rep.Violate("C04:child:pub_conforms", "public Child after SetNet differs from CKDpub / the new network's version in: "+d, c.replay(what))
 		}
 	}
 }
@@ -693,6 +875,8 @@ func oddKeys(r *vh.RNG) {
 		{"private key of 33 bytes", append([]byte{0}, r.Bytes(32)...), true},
 		{"private key of 40 bytes", r.Bytes(40), true},
 		{"private key with a leading zero byte", append([]byte{0}, r.Bytes(31)...), true},
+		{"private key empty (nil)", nil, true},
+		{"private key of 32 zero bytes", make([]byte, 32), true},
 		{"public key with format byte 05", bad, false},
 		{"public key off the curve", offc, false},
 		{"public key, uncompressed 65 bytes", gpub.SerializeUncompressed(), false},
@@ -720,6 +904,22 @@ func oddKeys(r *vh.RNG) {
 		k := hdkeychain.NewExtendedKey(nets[0].HDPrivateKeyID[:], od.key, r.Bytes(32), r.Bytes(4), 3, 4, od.priv)
 		if p, _ := vh.Catch(func() { _ = k.String() }); !p {
 			nodeCases(k, false, od.what)
+		}
+	}
+	// error precedence at depth 255: the depth guard comes before the hardened-from-public guard and before any parsing
+	for _, od := range []odd{{"public key at depth 255", good33(r), false}, {"public key off the curve at depth 255", offc, false}, {"private key at depth 255", r.Bytes(32), true}} {
+		for _, i := range []uint32{0, H - 1, H, 0xffffffff} {
+			ver := nets[0].HDPrivateKeyID[:]
+			if !od.priv {
+				ver = nets[0].HDPublicKeyID[:]
+			}
+			k := hdkeychain.NewExtendedKey(ver, od.key, r.Bytes(32), r.Bytes(4), 255, r.U32(), od.priv)
+			ch, err := k.Child(i)
+			rep.Count("guard_depth", od.what+fmt.Sprint(i), true)
+			if err != hdkeychain.ErrDeriveBeyondMaxDepth {
+				rep.Violate("C04:guard:depth", "Child at depth 255 did not return ErrDeriveBeyondMaxDepth", map[string]interface{}{"key": od.what, "index": i, "err": fmt.Sprint(err)})
+			}
+			cases.Add(fmt.Sprintf("Child no_oracle %s %d %s", coqKey(k.VerifFields()), i, coqRes(ch, err)), map[string]interface{}{"op": "Child(depth 255) on " + od.what, "index": i})
 		}
 	}
 	// unknown version: Neuter must fail with ErrUnknownHDKeyID; zero-length key prints the zeroed marker
@@ -759,6 +959,11 @@ func oddKeys(r *vh.RNG) {
 			}
 		}
 	}
+}
+
+func good33(r *vh.RNG) []byte {
+	_, p := bchec.PrivKeyFromBytes(bchec.S256(), r.Bytes(32))
+	return p.SerializeCompressed()
 }
 
 func main() {
@@ -837,6 +1042,28 @@ func main() {
 		}
 	}
 
+	// --- seed lengths around the powers of two up to 2^17 (a length or bit count narrowed to 8 / 16 bits wraps
+	//     back into the legal range there): l and 8*l congruent to 16..64 bytes / 128..512 bits mod 2^8, 2^16
+	{
+		var ls []int
+		for _, base := range []int{1 << 13, 1 << 14, 1 << 15, 1 << 16, 1 << 17} {
+			for _, d := range []int{-1, 0, 1, 15, 16, 17, 32, 63, 64, 65} {
+				ls = append(ls, base+d)
+			}
+		}
+		ls = append(ls, 3<<15+32, 3<<16+32)
+		for _, l := range ls {
+			seed := r.Bytes(l)
+			_, err := hdkeychain.NewMaster(seed, nets[l%len(nets)])
+			rep.Count("master", fmt.Sprint("mlong", l), false)
+			rep.Histogram["seedlen_>=8191"]++
+			if err != hdkeychain.ErrInvalidSeedLen {
+				rep.Violate("C04:guard:seedlen", "NewMaster did not refuse a seed outside 16..64 bytes with ErrInvalidSeedLen",
+					map[string]interface{}{"seed_len": l, "seed_is": "deterministic bytes, only the length matters", "seed_sha256_prefix": vh.Hex(bchutil.Hash160(seed)[:4]), "err": fmt.Sprint(err), "net": nets[l%len(nets)].Name, "net_index": l % len(nets)})
+			}
+		}
+	}
+
 	// --- several children of ONE key object, mixed hardened / normal order
 	r = rng.Fork("siblings")
 	ns := 12
@@ -894,7 +1121,7 @@ func main() {
 			path[j] = randIndex(r)
 		}
 		walk(r.Bytes(32), d%len(nets), path[:255], opt(40, 100, true, true)) // exactly depth 255: succeeds
-		walk(r.Bytes(32), (d+1)%len(nets), path, opt(0, 0, false, true))   // step 256 must be refused
+		walk(r.Bytes(32), (d+1)%len(nets), path, opt(0, 0, false, true))     // step 256 must be refused
 	}
 	// depth 255 reached directly (hook sets the depth field): both private and public
 	{
@@ -959,6 +1186,61 @@ func main() {
 		}
 	}
 	rep.Extra["targeted_leading_zero_children_found"] = map[string]int{"one_zero_byte": found1, "two_zero_bytes": found2, "scans": tries}
+
+	// --- chains of PUBLIC derivations (xpub -> child -> grandchild ...), random and deep
+	r = rng.Fork("pubchain")
+	npc := 12
+	if cfg.Thorough() {
+		npc = 80
+	}
+	if cfg.Search {
+		npc = 1500
+	}
+	for t := 0; t < npc; t++ {
+		var prefix []uint32
+		for j := 0; j < r.Intn(3); j++ {
+			prefix = append(prefix, randIndex(r))
+		}
+		l := 2 + r.Intn(6)
+		if t%6 == 0 {
+			l = 20 + r.Intn(20)
+		}
+		path := make([]uint32, l)
+		for j := range path {
+			path[j] = randIndex(r)
+		}
+		pubChain(r.Bytes(16+r.Intn(49)), t%len(nets), prefix, path, corr && t < 6)
+	}
+	// --- targeted: public children whose X coordinate has a leading zero byte, then two more public steps
+	r = rng.Fork("leadingzeropub")
+	nzp, foundp := 6, 0
+	if !quick {
+		nzp = 40
+	}
+	for t := 0; t < nzp; t++ {
+		seed := r.Bytes(32)
+		prefix := []uint32{randIndex(r)}
+		par := refDerive(seed, prefix)
+		if par == nil {
+			continue
+		}
+		i, ok := findLeadingZeroPub(par, r.U32()&0x3fffffff, 6000)
+		if !ok {
+			continue
+		}
+		foundp++
+		pubChain(seed, t%len(nets), prefix, []uint32{i, uint32(r.Intn(1000)), uint32(r.Intn(1000))}, corr && t < 4)
+		walk(seed, t%len(nets), append(append([]uint32{}, prefix...), i, uint32(r.Intn(1000))), opt(1, 0, t%2 == 0, true))
+	}
+	rep.Extra["targeted_public_children_with_leading_zero_X_found"] = foundp
+
+	// --- SetNet, then derivation: every ordered pair of networks
+	r = rng.Fork("setnet")
+	for a := range nets {
+		for b := range nets {
+			setNetThenChild(r, a, b, corr && (a+b)%4 == 1)
+		}
+	}
 
 	if corr {
 		oddKeys(rng.Fork("odd"))
